@@ -8,6 +8,17 @@ import sys
 VERIF = os.path.dirname(os.path.dirname(os.path.abspath(__file__)))
 
 CLAIMED = {
+    "C05": dict(
+        technique="path enumeration of cbor_load and of every builder callback: must-define of result fields, extracted cause->code table vs the property's table, position/read bookkeeping, no-silent-drop",
+        text="Every path of cbor_load (decode loop unrolled once more) is classified by the facts that led to the error "
+             "label (empty input, exhausted remainder, decoder NEDATA / ERROR, creation_failed, syntax_error) and must "
+             "return NULL with all three result fields written, the code of the property's table, and position equal to "
+             "read; read may only be advanced by a FINISHED result. Every path of all 24 builder callbacks and of "
+             "_cbor_builder_append must hand the item off or raise one of the two flags. Reserved bytes consume nothing "
+             "(T-dispatch).",
+        note="Not decided: 'every proper prefix of an acceptable item gives NOTENOUGHDATA' (quantifies over the accepted "
+             "language). 'Nothing left allocated' is decided by C01 rule 4 / C04 / C06.",
+        design="§4 C05"),
     "C08": dict(
         technique="exhaustive path enumeration of the loop-free decoder (claim_bytes inlined) + comparison of every path outcome with an RFC 8949 reference action table for all 256 initial bytes",
         text="All paths of cbor_stream_decode are enumerated symbolically-by-construction (terms, no solver) and, for each "
